@@ -14,7 +14,7 @@ import (
 func init() {
 	register(&Spec{ID: "C12", Title: "Logical channels are isolated and correctly routed under concurrency", Run: runC12,
 		Meta: core.Meta{
-			Explanation: "Lockset and routing rules; schedules are not explored. R12.1 (E-LOCK, guarded-by table confirmed by reading): Conn.tdsChannels is read only under tdsChannelsLock (R or W) and written only under W (objects under construction exempt); Conn.tdsChannelCurFreeId is touched only through sync/atomic or under W; Channel.closed is read under the channel's RWMutex and written under W; the hook slices are accessed under one mutex. The must-lockset is computed per function over SSA (Lock/RLock add, Unlock/RUnlock remove, deferred unlocks keep the lock to the exit, unexported callees inherit the meet over their call sites). R12.2: in Conn.ReadFrom the receiver of WritePacket is the comma-ok result of tdsChannels[int(packet.Header.Channel)] for the packet just read, and the !ok edge reports on Conn.errCh and continues. R12.3: sendPacket stamps Header.Channel from channelId and Header.PacketNr from curPacketNr on the channelId > 0 edge and advances curPacketNr by one modulo 2^bits(PacketNr). R12.4: NewChannel registers the channel under the id it stores in channelId; Close deletes that id under the write lock. R12.5: the set-up acknowledgement test in NewChannel uses a type assertion that some producer can satisfy and is followed by the PROTACK test. R12.7: the id returned by getValidChannelId is computed from the result of the atomic add on tdsChannelCurFreeId (or is the id of the recursive attempt) and the counter is never read by a separate atomic load. R12.8 = R01.7: Packet.WriteTo hands the serialised packet to the transport in exactly one Write (channels share the transport without a send lock; two writes let another channel's packet land between header and body). R12.9: no `go` statement occurs in any function statically reachable from (*Conn).ReadFrom — a hand-over finished by a helper goroutine lets packages of one channel overtake each other. R12.10 = R14.4 (every path of the reader loop with a completely received packet reaches WritePacket or reports the unknown channel on Conn.errCh — no kind of packet is dropped silently). R12.6: WritePacket tests `closed` under the channel lock before it touches the queues. R12.4 also requires that the registration in tdsChannels dominates the sending of the set-up packet (the acknowledgement can be routed as soon as the packet is out).",
+			Explanation: "Lockset and routing rules; schedules are not explored. R12.1 (E-LOCK, guarded-by table confirmed by reading): Conn.tdsChannels is read only under tdsChannelsLock (R or W) and written only under W (objects under construction exempt); Conn.tdsChannelCurFreeId is touched only through sync/atomic or under W; Channel.closed is read under the channel's RWMutex and written under W; the hook slices are accessed under one mutex. The must-lockset is computed per function over SSA (Lock/RLock add, Unlock/RUnlock remove, deferred unlocks keep the lock to the exit, unexported callees inherit the meet over their call sites). R12.2: in Conn.ReadFrom the receiver of WritePacket is the comma-ok result of tdsChannels[int(packet.Header.Channel)] for the packet just read, and the !ok edge reports on Conn.errCh and continues. R12.3: sendPacket stamps Header.Channel from channelId and Header.PacketNr from curPacketNr on the channelId > 0 edge and advances curPacketNr by one modulo 2^bits(PacketNr). R12.4: NewChannel registers the channel under the id it stores in channelId; Close deletes that id under the write lock. R12.5: the set-up acknowledgement test in NewChannel uses a type assertion that some producer can satisfy and is followed by the PROTACK test. R12.7: the id returned by getValidChannelId is computed from the result of the atomic add on tdsChannelCurFreeId (or is the id of the recursive attempt) and the counter is never read by a separate atomic load. R12.8 = R01.7: Packet.WriteTo hands the serialised packet to the transport in exactly one Write (channels share the transport without a send lock; two writes let another channel's packet land between header and body). R12.9: no `go` statement occurs in any function statically reachable from (*Conn).ReadFrom — a hand-over finished by a helper goroutine lets packages of one channel overtake each other. R12.10 = R14.4 (every path of the reader loop with a completely received packet reaches WritePacket or reports the unknown channel on Conn.errCh — no kind of packet is dropped silently). R12.11: no function of package tds (outside init) stores into an element of a package-level array/slice of basic elements or hands (a slice of) one to a call — such a buffer is shared by the reader goroutines of all connections and by all sending channels. R12.6: WritePacket tests `closed` under the channel lock before it touches the queues. R12.4 also requires that the registration in tdsChannels dominates the sending of the set-up packet (the acknowledgement can be routed as soon as the packet is out).",
 			NotDecided:  "Interleavings and data races on fields used by one goroutine per channel by contract (curPacketNr, CurrentHeaderType, packetSize) are not decided; the race detector is another technique family.",
 			Assumptions: []string{"sync.RWMutex / sync/atomic semantics", "fields outside the guarded-by table are confined to one goroutine by the library's contract"},
 		}})
@@ -42,6 +42,8 @@ func runC12(r *core.Run) {
 	defer c12NoGoOnReaderPath(r)
 	r.Rule("R12.10", "every completely received packet is routed or, for an unknown channel, reported (R14.4)", 4, false)
 	defer c14Conn(r, "R12.10")
+	r.Rule("R12.11", "no package-level scratch buffer is shared between connections or channels", 1, false)
+	defer c12NoSharedBuffers(r)
 
 	table := []guardedField{
 		{p.Field("tds", "Conn", "tdsChannels"), "tdsChannelsLock", false, true},
@@ -79,6 +81,14 @@ func c12IdFromAdd(r *core.Run) {
 		for _, c := range core.Calls(f) {
 			if atomicOn(c, "Load") {
 				r.Bad("R12.7", core.FuncName(f)+": separate load of tdsChannelCurFreeId", c.Pos(), "the id counter is read with an atomic load of its own: read and advance are two steps, so two concurrent NewChannel calls can obtain the same id")
+			}
+			for _, op := range []string{"CompareAndSwap", "Store", "Swap", "And", "Or"} {
+				if atomicOn(c, op) {
+					r.Bad("R12.7", core.FuncName(f)+": tdsChannelCurFreeId modified by atomic."+op, c.Pos(), "the id counter is moved by something other than the reserving add: an id that was handed out (and for which the server may still send packets) can be handed out again")
+				}
+			}
+			if atomicOn(c, "Add") && f != fn {
+				r.Bad("R12.7", core.FuncName(f)+": tdsChannelCurFreeId advanced outside getValidChannelId", c.Pos(), "the id counter is advanced in a second place")
 			}
 		}
 	}
@@ -695,4 +705,77 @@ func c12NoGoOnReaderPath(r *core.Run) {
 		}
 	}
 	r.Check(n >= 3, "R12.9", "reader path is a single goroutine", token.NoPos, fmt.Sprintf("%d functions reachable from (*Conn).ReadFrom, no go statement", n), "the reader path was not found")
+}
+
+// c12NoSharedBuffers: R12.11. Every connection has its own reader goroutine and every channel its own callers, so
+// package-level byte buffers (or other package-level arrays/slices) must not be written by the packet and package
+// code: a scratch buffer that is "only used by the reader" is shared by the readers of ALL connections of the process.
+// Flagged: a store into an element of a package-level array/slice of package tds, or such an array/slice (or a slice
+// of it) handed to a call, outside init.
+func c12NoSharedBuffers(r *core.Run) {
+	p := r.Prog
+	n := 0
+	isBuf := func(g *ssa.Global) bool {
+		if g.Pkg == nil || g.Pkg.Pkg.Path() != core.Module+"/tds" {
+			return false
+		}
+		pt, ok := g.Type().(*types.Pointer)
+		if !ok {
+			return false
+		}
+		switch t := pt.Elem().Underlying().(type) {
+		case *types.Array:
+			_, isBasic := t.Elem().Underlying().(*types.Basic)
+			return isBasic
+		case *types.Slice:
+			_, isBasic := t.Elem().Underlying().(*types.Basic)
+			return isBasic
+		}
+		return false
+	}
+	for _, fn := range p.ModuleFuncs() {
+		if fn.Pkg == nil || fn.Pkg.Pkg.Path() != core.Module+"/tds" || fn.Name() == "init" || p.IsGenerated(fn.Pos()) {
+			continue
+		}
+		for _, b := range fn.Blocks {
+			for _, in := range b.Instrs {
+				var g *ssa.Global
+				var what string
+				switch x := in.(type) {
+				case *ssa.IndexAddr:
+					base := x.X
+					if u, ok := base.(*ssa.UnOp); ok {
+						base = u.X
+					}
+					if gg, ok := base.(*ssa.Global); ok && isBuf(gg) {
+						for _, ref := range *x.Referrers() {
+							if st, isSt := ref.(*ssa.Store); isSt && st.Addr == ssa.Value(x) {
+								g, what = gg, "an element of it is assigned"
+							}
+						}
+					}
+				case *ssa.Slice:
+					base := x.X
+					if u, ok := base.(*ssa.UnOp); ok {
+						base = u.X
+					}
+					if gg, ok := base.(*ssa.Global); ok && isBuf(gg) {
+						for _, ref := range *x.Referrers() {
+							if _, isCall := ref.(ssa.CallInstruction); isCall {
+								g, what = gg, "a slice of it is handed to "+calleeKey(ref.(ssa.CallInstruction))
+							}
+							if _, isPhi := ref.(*ssa.Phi); isPhi {
+								g, what = gg, "a slice of it is used as a working buffer"
+							}
+						}
+					}
+				}
+				if g != nil {
+					n++
+					r.Bad("R12.11", core.FuncName(fn)+": package-level buffer "+g.Name(), in.Pos(), "the package-level buffer tds."+g.Name()+" is written ("+what+"): all connections and channels of the process share it, so two readers (or senders) working at the same time overwrite each other's bytes — packets are decoded with another connection's header or sent with another channel's body")
+				}
+			}
+		}
+	}
+	r.Check(n == 0, "R12.11", "no package-level buffer is written by packet or package code", token.NoPos, "no store into, and no slice handed out of, a package-level array/slice of basic elements in package tds", "see the individual reports")
 }
